@@ -18,6 +18,7 @@
 package validator
 
 import (
+	"io"
 	"net/http"
 
 	"fmt"
@@ -152,7 +153,14 @@ func (v *Validator) Handle(ctx *context.Context) string {
 		}
 	}
 	if v.signer != nil {
-		if err := v.signer.Verify(req.Std()); err != nil {
+		// The body has already been read into the payload (the std body is
+		// drained), and the payload is what gets forwarded: verify that.
+		stdr := req.Std()
+		if !req.IsStream() {
+			stdr = stdr.Clone(stdr.Context())
+			stdr.Body = io.NopCloser(req.GetPayload())
+		}
+		if err := v.signer.Verify(stdr); err != nil {
 			prepareErrorResponse(http.StatusUnauthorized, "signature validator: ", err)
 			return resultInvalid
 		}
